@@ -100,12 +100,16 @@ def run_one(m):
 def main():
     ap = argparse.ArgumentParser()
     ap.add_argument("--only", default="")
+    ap.add_argument("--all-props", action="store_true", help="evaluate the behaviour-preserving variants (expect=pass) against all 20 properties, not only their own")
     ap.add_argument("--jobs", type=int, default=6)
     ap.add_argument("--suite-survivors", action="store_true")
     ap.add_argument("--json", default="")
     ap.add_argument("-v", action="store_true")
     a = ap.parse_args()
     ms = [m for m in load() if a.only in m["id"] or a.only in m["property"]]
+    if a.all_props:
+        allp = ["C%02d" % i for i in range(1, 21)]
+        ms = [dict(m, properties=allp) for m in ms if m.get("expect") == "pass"]
     if a.suite_survivors:
         ms = [m for m in ms if m.get("suite", "").startswith("SURVIV")]
     results = []
